@@ -34,6 +34,12 @@ THEOREMS = [
     'C03.spec_mirror_invariant', 'C03.nlist_mirror_invariant', 'C03.spec_farface_invariant',
     'C03.nlist_farface_invariant', 'C03.spec_reorder_invariant', 'C03.nlist_reorder_invariant',
     'C03.spec_axes_invariant', 'C03.nlist_axes_invariant',
+    # round 5: source tie part 2 (Generated/NlistSource.lean, Proofs/C03_Source.lean) and the call forms
+    'C03.gen_corner_eq_model', 'C03.gen_cornerLoop_eq_model', 'C03.gen_superTests_eq_model', 'C03.gen_superbox_eq_model',
+    'C03.gen_bins_eq_model', 'C03.gen_ghostShifts_eq_model', 'C03.gen_ghostPos_eq_model', 'C03.gen_inSuper_eq_model',
+    'C03.gen_stencil_eq_model', 'C03.gen_skipBin_eq_model', 'C03.pairsOf_eq_loops', 'C03.gen_scans_eq_model',
+    'C03.scan_exhausted', 'C03.src_defaults_valid', 'C03.nlistCall_complete', 'C03.nlistCall_form_irrelevant',
+    'C03.sweep_loops_as_modelled',
 ]
 PARTIAL = {}
 RULE = ('systems: orthogonal / tilted / general (rotated, left-handed) cells with non-zero origin, all 8 pbc '
@@ -1727,7 +1733,7 @@ def _payload(case, **kw):
 # ----------------------------------------------------------------------------------------
 # translator: the storage-growth code of nlist.pyx -> lean/Atomman/Generated/NlistStorage.lean
 # ----------------------------------------------------------------------------------------
-GENERATED = ['NlistStorage']
+GENERATED = ['NlistStorage', 'NlistSource']
 
 _BIN_BLOCK = [
     r'c = xyzbins\[x, y, z, 0\] \+ 1',
@@ -2123,7 +2129,7 @@ def _translate_scalars():
 # the statements of `nlist` / `unique_rows2` the model (Atomman/C03.lean) was written from: `<indent>|<statement>`,
 # translated holes as `<names>`, real C type names as `<real>` (see `_masked_function`)
 _NLIST_TEMPLATE = '''
-0|def nlist(system, <real> cutoff, Py_ssize_t initialsize=20, Py_ssize_t deltasize=10):
+0|<def_delta,def_init>
 4|pos = np.asarray(system.atoms.pos, dtype=<real>)
 4|cdef const <real>[:,:] posv = pos
 4|cdef const <real>[:,:] vects = system.box.vects
@@ -2172,63 +2178,63 @@ _NLIST_TEMPLATE = '''
 4|for j in range(3):
 8|supermin[j] = origin[j]
 8|supermax[j] = origin[j]
-4|for z in range(0, 2):
-8|for y in range(0, 2):
-12|for x in range(0, 2):
+4|<cornerloop>
+8|<cornerloop>
+12|<cornerloop>
 16|for j in range(3):
-20|corner = origin[j] + x * vects[0, j] + y * vects[1, j] + z * vects[2, j]
-20|if corner < supermin[j]:
+20|<corner>
+20|<supertest>
 24|supermin[j] = corner
-20|if corner > supermax[j]:
+20|<supertest>
 24|supermax[j] = corner
 4|for j in range(3):
-8|supermin[j] -= 1.01 * cutoff
-8|supermax[j] += 1.01 * cutoff
+8|<pad>
+8|<pad>
 4|<binsize>
-4|xbins = np.arange(supermin[0], supermax[0] + binsize, binsize)
-4|ybins = np.arange(supermin[1], supermax[1] + binsize, binsize)
-4|zbins = np.arange(supermin[2], supermax[2] + binsize, binsize)
+4|<arange>
+4|<arange>
+4|<arange>
 4|numxbins = len(xbins)
 4|numybins = len(ybins)
 4|numzbins = len(zbins)
-4|xindex = np.digitize(pos[:, 0], xbins) - 1
-4|yindex = np.digitize(pos[:, 1], ybins) - 1
-4|zindex = np.digitize(pos[:, 2], zbins) - 1
+4|<digitize>
+4|<digitize>
+4|<digitize>
 4|xyzindex = np.hstack((xindex[:, np.newaxis], yindex[:, np.newaxis], zindex[:, np.newaxis]))
 4|atomindex = np.arange(natoms, dtype=np.int64)
 4|if pbc_a:
-8|xl, xh = -1, 2
+8|<shiftrange>
 4|else:
-8|xl, xh = 0, 1
+8|<shiftrange>
 4|if pbc_b:
-8|yl, yh = -1, 2
+8|<shiftrange>
 4|else:
-8|yl, yh = 0, 1
+8|<shiftrange>
 4|if pbc_c:
-8|zl, zh = -1, 2
+8|<shiftrange>
 4|else:
-8|zl, zh = 0, 1
+8|<shiftrange>
 4|for x in range(xl, xh):
 8|for y in range(yl, yh):
 12|for z in range(zl, zh):
-16|if x == 0 and y == 0 and z == 0:
+16|<ghostskip>
 20|pass
 16|else:
 20|k=0
 20|for i in range(posv.shape[0]):
 24|for j in range(3):
-28|newposv[i, j] = x * vects[0, j] + y * vects[1, j] + z * vects[2, j] + posv[i, j]
-24|if (    newposv[i, 0] > supermin[0] and newposv[i, 0] < supermax[0]
-28|and newposv[i, 1] > supermin[1] and newposv[i, 1] < supermax[1]
-28|and newposv[i, 2] > supermin[2] and newposv[i, 2] < supermax[2]):
+28|<ghostcoord>
+24|<insuper>
+28|<insuper>
+28|<insuper>
 28|newindex[k] = i
 28|k += 1
 20|ghostpos = np.vstack((ghostpos, newpos[newindex[:k]]))
 20|ghostindex = np.hstack((ghostindex, newindex[:k]))
 4|if len(ghostpos) > 0:
-8|xindex = np.digitize(ghostpos[:, 0], xbins) - 1
-8|yindex = np.digitize(ghostpos[:, 1], ybins) - 1
-8|zindex = np.digitize(ghostpos[:, 2], zbins) - 1
+8|<digitize>
+8|<digitize>
+8|<digitize>
 8|xyzghostindex = np.hstack((xindex[:, np.newaxis],
 35|yindex[:, np.newaxis],
 35|zindex[:, np.newaxis]))
@@ -2262,15 +2268,15 @@ _NLIST_TEMPLATE = '''
 12|shortlist[j] = xyzbins[x, y, z, j+1]
 12|superlonglist[j] = shortlist[j]
 8|end = False
-8|for dz in range(-1, 2):
-12|for dy in range(-1, 2):
-16|for dx in range(-1, 2):
-20|if dx == 0 and dy == 0 and dz == 0:
+8|<stencilloop>
+12|<stencilloop>
+16|<stencilloop>
+20|<centre>
 24|end = True
 24|break
-20|if (x + dx < 0 or x + dx == numxbins or
-24|y + dy < 0 or y + dy == numybins or
-24|z + dz < 0 or z + dz == numzbins):
+20|<skip>
+24|<skip>
+24|<skip>
 24|continue
 20|dc = xyzbins[x + dx, y + dy, z + dz, 0]
 20|for j in range(dc):
@@ -2285,35 +2291,35 @@ _NLIST_TEMPLATE = '''
 12|uindex = shortlist[u]
 12|upos = np.empty((longlist.shape[0]-u-1, 3))
 12|vpos = np.empty((longlist.shape[0]-u-1, 3))
-12|for w, v in enumerate(range(u+1, longlist.shape[0])):
+12|<vstart>
 16|for j in range(3):
 20|vindex = longlist[v]
 20|upos[w, j] = posv[uindex, j]
 20|vpos[w, j] = posv[vindex, j]
 12|dmag2 = dmag2_c(upos, vpos, vects, pbc_a, pbc_b, pbc_c)
-12|for w, v in enumerate(range(u+1, longlist.shape[0])):
+12|<vstart>
 16|<accept>
 20|vindex = longlist[v]
 20|<selftest>
 24|new = True
 24|uj = -1
 24|vj = -1
-24|for j in range(1, neighbors[uindex, 0] + 1):
-28|if neighbors[uindex, j] == vindex:
+24|<scan>
+28|<scantest>
 32|new = False
 32|break
-28|elif neighbors[uindex, j] > vindex:
+28|<scantest>
 32|uj = j
 32|break
 24|if uj == -1:
-28|uj = neighbors[uindex, 0] + 1
+28|<jdefault>
 24|if new:
-28|for j in range(1, neighbors[vindex, 0] + 1):
-32|if neighbors[vindex, j] > uindex:
+28|<scan>
+32|<scantest>
 36|vj = j
 36|break
 28|if vj == -1:
-32|vj = neighbors[vindex, 0] + 1
+32|<jdefault>
 28|neighbors[uindex, 0] += 1
 28|neighbors[vindex, 0] += 1
 28|<nbr_trigger>
@@ -2396,10 +2402,34 @@ _LOAD_BODY = [
 # -- whole-function pins: the model was written against these statements, in this order and nesting ----------------
 _SCALAR_HOLES = [r'cdef \w+ cutoff2 = (?P<cutoff2>.+)', r'binsize = (?P<binsize>.+)',
                  r'if (?P<accept>[^:]*dmag2\[w\][^:]*):', r'if (?P<selftest>(?:uindex|vindex) *\S+ *(?:uindex|vindex)):']
+# round 5: the statements read from the syntax tree by `_translate_source` (Generated/NlistSource.lean): their content is a
+# proof obligation (gen_…_eq_model), so the statement pin only keeps their place
+_SRC_HOLES = [
+    r'def nlist\(system, [\w ]+ cutoff, Py_ssize_t initialsize=(?P<def_init>\d+), Py_ssize_t deltasize=(?P<def_delta>\d+)\):',
+    r'corner = (?P<corner>.+)',
+    r'if (?P<supertest>corner .+ super(?:min|max)\[j\]):',
+    r'super(?:min|max)\[j\] [-+]= (?P<pad>.+)',
+    r'[xyz]bins = np\.arange\((?P<arange>.+)\)',
+    r'[xyz]index = np\.digitize\((?P<digitize>.+)',
+    r'[xyz]l, [xyz]h = (?P<shiftrange>.+)',
+    r'for [xyz] in range\((?P<cornerloop>\d+, \d+)\):',
+    r'if (?P<ghostskip>x\b.*\by\b.*\bz\b.*):',
+    r'newposv\[i, j\] = (?P<ghostcoord>.+)',
+    r'if \((?P<insuper>\s*newposv\[i, 0\].*)',
+    r'and (?P<insuper>newposv\[i, [12]\].*)',
+    r'for d[xyz] in range\((?P<stencilloop>-?\d+, -?\d+)\):',
+    r'if (?P<centre>dx\b.*\bdy\b.*\bdz\b.*):',
+    r'if \((?P<skip>x \+ dx.*)',
+    r'(?P<skip>[yz] \+ d[yz] .*)',
+    r'for w, v in enumerate\(range\((?P<vstart>.+), longlist\.shape\[0\]\)\):',
+    r'for j in range\((?P<scan>.+, neighbors\[[uv]index, 0\].*)\):',
+    r'(?:el)?if (?P<scantest>neighbors\[[uv]index, j\] .+):',
+    r'[uv]j = (?P<jdefault>neighbors\[[uv]index, 0\] .+)',
+]
 _REAL_WORD = r'\b(?:long double|double|float|c?np\.float(?:32|64)_t|np\.float(?:16|32|64)|np\.longdouble)\b'
 
 
-def _masked_function(src, header_re, what):
+def _masked_function(src, header_re, what, src_holes=False):
     """the code lines of one top-level function as `<indent>|<text>`: comments, docstrings and blank lines removed,
     indentation kept (so that a statement moved into / out of a loop or branch shows), every line the translator turns
     into a Lean definition replaced by the names of its holes, every real C type name by `<real>` (the declared types
@@ -2433,7 +2463,7 @@ def _masked_function(src, header_re, what):
                     if m.groupdict():
                         mask[k + off] = '<' + ','.join(sorted(m.groupdict())) + '>'
     for k, t in enumerate(texts):                    # the single statements and scalar tests: by their own shape
-        for pat in _SINGLE + _SCALAR_HOLES:
+        for pat in _SINGLE + _SCALAR_HOLES + (_SRC_HOLES if src_holes else []):
             m = re.fullmatch(pat, t)
             if m:
                 mask[k] = '<' + ','.join(sorted(m.groupdict())) + '>'
@@ -2446,7 +2476,7 @@ def _pin_statements():
     bins, a changed loop bound — anything that is not one of the translated holes — is outside the translated subset."""
     from ..translate import TranslationError
     src = cm.source('atomman/core/nlist.pyx')
-    got = _masked_function(src, r'^def nlist\(', 'nlist.pyx: nlist') \
+    got = _masked_function(src, r'^def nlist\(', 'nlist.pyx: nlist', src_holes=True) \
         + _masked_function(src, r'^def unique_rows2\(', 'nlist.pyx: unique_rows2')
     want = [l for l in _NLIST_TEMPLATE.splitlines() if l.strip()]
     for k in range(max(len(got), len(want))):
@@ -2467,6 +2497,394 @@ def _pin_statements():
         if g != w:
             raise TranslationError(f'dmag.pyx: statement {k + 1} of dmag2_c is not the modelled one: source has '
                                    f'{g.split("|", 1)[-1]!r}, the model was written for {w.split("|", 1)[-1]!r}')
+
+# ----------------------------------------------------------------------------------------
+# translator, part 2 (round 5): the geometry and the insertion of nlist.pyx as Lean definitions
+#   -> lean/Atomman/Generated/NlistSource.lean.   nlist.pyx is turned into plain python (typed parameters -> names,
+#   `cdef T name = e` -> `name = e`, other `cdef` lines -> `pass`), parsed with `ast`, and the statements the model depends
+#   on are located in the syntax tree by what they assign / test and by the loops around them.
+# ----------------------------------------------------------------------------------------
+def _decython(src, name):
+    import re
+    from ..translate import TranslationError
+    raw = src.splitlines()
+    starts = [k for k, l in enumerate(raw) if re.match(r'^def %s\(' % name, l)]
+    if len(starts) != 1:
+        raise TranslationError(f'nlist.pyx: `def {name}(` found {len(starts)} times')
+    k0 = starts[0]
+    end = len(raw)
+    for k in range(k0 + 1, len(raw)):
+        if raw[k] and not raw[k][0].isspace() and not raw[k].startswith(('#', ')')):
+            end = k
+            break
+    out = []
+    for l in raw[k0:end]:
+        s = l.strip()
+        ind = l[:len(l) - len(l.lstrip())]
+        if s.startswith('def %s(' % name):
+            m = re.match(r'def \w+\((.*)\):$', s)
+            if not m:
+                raise TranslationError(f'nlist.pyx: signature of {name} not on one line')
+            ps = []
+            for p in _split_top(m.group(1)):
+                lhs, eq, rhs = p.partition('=')
+                ps.append(lhs.split()[-1] + (eq + rhs.strip() if eq else ''))
+            out.append(ind + 'def %s(%s):' % (name, ', '.join(ps)))
+        elif s.startswith('cdef '):
+            m = re.match(r'cdef\s+(?:const\s+)?[\w ]+?(?:\s*\[[:,\s]*\])?\s+(\w+)\s*=\s*(.+)$', s)
+            out.append(ind + (m.group(1) + ' = ' + m.group(2) if m else 'pass'))
+        else:
+            out.append(l)
+    return '\n'.join(out)
+
+
+def _src_tree():
+    import ast
+    from ..translate import TranslationError
+    try:
+        tree = ast.parse(_decython(cm.source('atomman/core/nlist.pyx'), 'nlist'))
+    except SyntaxError as e:
+        raise TranslationError(f'nlist.pyx: not readable as python after removing the C declarations: {e}')
+    fn = tree.body[0]
+    parent = {}
+
+    def link(n):
+        for ch in ast.iter_child_nodes(n):
+            parent[ch] = n
+            link(ch)
+    link(fn)
+    return fn, parent
+
+
+def _dfs(node):
+    import ast
+    yield node
+    for ch in ast.iter_child_nodes(node):
+        yield from _dfs(ch)
+
+
+def _lx(node, env, kind):
+    """python expression -> Lean term.  `env`: {unparsed sub-expression: Lean term}.  kind 'rat' | 'int' | 'nat':
+    literals are typed accordingly; '-' is refused on 'nat'."""
+    import ast
+    from ..translate import TranslationError
+    ty = {'rat': 'Rat', 'int': 'Int', 'nat': 'Nat'}[kind]
+
+    def go(n):
+        key = ast.unparse(n)
+        if key in env:
+            return env[key]
+        if isinstance(n, ast.Constant) and isinstance(n.value, (int, float)) and not isinstance(n.value, bool):
+            if isinstance(n.value, float) and kind != 'rat':
+                raise TranslationError(f'nlist.pyx: real literal in an integer expression: {key!r}')
+            f = Fraction(repr(n.value)) if isinstance(n.value, float) else Fraction(n.value)
+            if f < 0 and kind == 'nat':
+                raise TranslationError(f'nlist.pyx: negative literal in a count: {key!r}')
+            return f'(({f.numerator} : {ty}) / {f.denominator})' if f.denominator != 1 else f'({f.numerator} : {ty})'
+        if isinstance(n, ast.UnaryOp) and isinstance(n.op, ast.USub) and isinstance(n.operand, ast.Constant) and kind != 'nat':
+            return f'(-{go(n.operand)})'
+        if isinstance(n, ast.BinOp) and isinstance(n.op, (ast.Add, ast.Mult)):
+            return f'({go(n.left)} {"+" if isinstance(n.op, ast.Add) else "*"} {go(n.right)})'
+        if isinstance(n, ast.BinOp) and isinstance(n.op, ast.Sub) and kind != 'nat':
+            return f'({go(n.left)} - {go(n.right)})'
+        if isinstance(n, ast.Compare) and len(n.ops) == 1:
+            a, b, op = go(n.left), go(n.comparators[0]), n.ops[0]
+            table = {ast.Lt: f'decide ({a} < {b})', ast.LtE: f'decide ({a} ≤ {b})', ast.Gt: f'decide ({b} < {a})',
+                     ast.GtE: f'decide ({b} ≤ {a})', ast.Eq: f'decide ({a} = {b})', ast.NotEq: f'decide ({a} ≠ {b})'}
+            if type(op) in table:
+                return table[type(op)]
+        if isinstance(n, ast.BoolOp):
+            j = ' || ' if isinstance(n.op, ast.Or) else ' && '
+            return '(' + j.join(go(v) for v in n.values) + ')'
+        if isinstance(n, ast.UnaryOp) and isinstance(n.op, ast.Not):
+            return f'(!{go(n.operand)})'
+        raise TranslationError(f'nlist.pyx: expression outside the translated subset: {key!r}')
+    return go(node)
+
+
+def _int_range(call, what):
+    """`range(a, b)` with integer literals -> (a, b)."""
+    import ast
+    from ..translate import TranslationError
+    try:
+        if isinstance(call, ast.Call) and ast.unparse(call.func) == 'range' and not call.keywords and 1 <= len(call.args) <= 2:
+            vals = [ast.literal_eval(a) for a in call.args]
+            if all(isinstance(v, int) and not isinstance(v, bool) for v in vals):
+                return (0, vals[0]) if len(vals) == 1 else (vals[0], vals[1])
+    except ValueError:
+        pass
+    raise TranslationError(f'nlist.pyx: {what}: loop bounds are not integer literals: {ast.unparse(call)!r}')
+
+
+def _loops_around(node, parent):
+    """the `for` statements around a node, outermost first."""
+    import ast
+    out = []
+    while node in parent:
+        node = parent[node]
+        if isinstance(node, ast.For):
+            out.append(node)
+    return out[::-1]
+
+
+def _one(nodes, what):
+    from ..translate import TranslationError
+    nodes = list(nodes)
+    if len(nodes) != 1:
+        raise TranslationError(f'nlist.pyx: {what} found {len(nodes)} times')
+    return nodes[0]
+
+
+def _translate_source():
+    import ast
+    from ..translate import TranslationError
+    fn, parent = _src_tree()
+    U = ast.unparse
+    nodes = list(_dfs(fn))
+    L = ['/- GENERATED by harness/props/c03.py from atomman/core/nlist.pyx and atomman/core/NeighborList.py — do not edit.',
+         '   The superbox, the bins, the ghost images, the stencil of the sweep and the tests of the sorted insertion,',
+         '   each as the expression / loop bounds / test that stands in the source (read from its syntax tree). -/',
+         'namespace Atomman.C03.Src', '',
+         '/-- `range(lo, hi)` -/',
+         'def rangeI (lo hi : Int) : List Int := (List.range (hi - lo).toNat).map fun (k : Nat) => lo + (k : Int)', '']
+
+    # --- defaults of the storage sizes: nlist, NeighborList.build
+    names = [a.arg for a in fn.args.args]
+    if names != ['system', 'cutoff', 'initialsize', 'deltasize'] or len(fn.args.defaults) != 2 or fn.args.kwonlyargs:
+        raise TranslationError(f'nlist.pyx: parameters of nlist are {names}')
+    dfl = [ast.literal_eval(d) for d in fn.args.defaults]
+    tree = ast.parse(cm.source('atomman/core/NeighborList.py'))
+    cls = [n for n in tree.body if isinstance(n, ast.ClassDef) and n.name == 'NeighborList']
+    bld = [n for n in (cls[0].body if cls else []) if isinstance(n, ast.FunctionDef) and n.name == 'build']
+    if len(bld) != 1:
+        raise TranslationError('NeighborList.build not found')
+    bnames = [a.arg for a in bld[0].args.args]
+    if bnames != ['self', 'system', 'cutoff', 'initialsize', 'deltasize'] or len(bld[0].args.defaults) != 2:
+        raise TranslationError(f'NeighborList.build: parameters are {bnames}')
+    bdfl = [ast.literal_eval(d) for d in bld[0].args.defaults]
+    for v in dfl + bdfl:
+        if not (isinstance(v, int) and not isinstance(v, bool) and v >= 0):
+            raise TranslationError(f'default storage size {v!r} is not a count')
+    L += ['/-! ### defaults of `initialsize` / `deltasize` -/',
+          f'/-- `def nlist(system, cutoff, initialsize={dfl[0]}, deltasize={dfl[1]})` -/',
+          f'def defInitialsize : Nat := {dfl[0]}', f'def defDeltasize : Nat := {dfl[1]}',
+          f'/-- `def build(self, system, cutoff, initialsize={bdfl[0]}, deltasize={bdfl[1]})` -/',
+          f'def buildDefInitialsize : Nat := {bdfl[0]}', f'def buildDefDeltasize : Nat := {bdfl[1]}', '']
+
+    # --- superbox: corner loops, corner expression, min / max tests, padding
+    corner = _one([n for n in nodes if isinstance(n, ast.Assign) and U(n.targets[0]) == 'corner'], '`corner = …`')
+    loops = _loops_around(corner, parent)
+    if len(loops) != 4 or [U(l.target) for l in loops][3] != 'j' or U(loops[3].iter) != 'range(3)' \
+            or sorted(U(l.target) for l in loops[:3]) != ['x', 'y', 'z']:
+        raise TranslationError('nlist.pyx: the loops around `corner = …` are not three coefficient loops and `for j in range(3)`')
+    env = {'origin[j]': 'o', 'vects[0, j]': 'v0', 'vects[1, j]': 'v1', 'vects[2, j]': 'v2', 'x': 'x', 'y': 'y', 'z': 'z'}
+    L += ['/-! ### superbox -/', f'/-- `corner = {_cmt(U(corner.value))}` -/',
+          f'def cornerOf (o v0 v1 v2 x y z : Rat) : Rat := {_lx(corner.value, env, "rat")}']
+    rngs = [(U(l.target), _int_range(l.iter, 'corner loops')) for l in loops[:3]]
+    body = '((x : Rat), (y : Rat), (z : Rat))'
+    expr = ''
+    for d, (v, (lo, hi)) in enumerate(rngs):
+        expr += f'(rangeI ({lo}) ({hi})).{"map" if d == 2 else "flatMap"} fun ({v} : Int) => '
+    L += ['/-- the coefficient triples `(x, y, z)` in the order of the loops: '
+          + ', '.join(f'`for {v} in range({lo}, {hi})`' for v, (lo, hi) in rngs) + ' -/',
+          f'def cornerLoop : List (Rat × Rat × Rat) := {expr}{body}']
+    inner = loops[3].body
+    if len(inner) != 3 or inner[0] is not corner or not all(isinstance(s, ast.If) and not s.orelse and len(s.body) == 1 for s in inner[1:]):
+        raise TranslationError('nlist.pyx: the corner loop body is not `corner = …; if …: supermin[j] = corner; if …: supermax[j] = corner`')
+    for s, arr, nm in ((inner[1], 'supermin', 'superMinTest'), (inner[2], 'supermax', 'superMaxTest')):
+        if U(s.body[0]) != f'{arr}[j] = corner':
+            raise TranslationError(f'nlist.pyx: corner loop: expected `{arr}[j] = corner`, found {U(s.body[0])!r}')
+        L += [f'/-- `if {_cmt(U(s.test))}: {arr}[j] = corner` (`m` = `{arr}[j]`) -/',
+              f'def {nm} (corner m : Rat) : Bool := {_lx(s.test, {"corner": "corner", arr + "[j]": "m"}, "rat")}']
+    for arr, nm in (('supermin', 'superLo'), ('supermax', 'superHi')):
+        aug = _one([n for n in nodes if isinstance(n, ast.AugAssign) and U(n.target) == f'{arr}[j]'], f'`{arr}[j] ±= …`')
+        if not isinstance(aug.op, (ast.Add, ast.Sub)) or U(_loops_around(aug, parent)[-1].iter) != 'range(3)':
+            raise TranslationError(f'nlist.pyx: padding of {arr} outside the translated subset: {U(aug)!r}')
+        L += [f'/-- `{_cmt(U(aug))}` (`m` = `{arr}[j]` before) -/',
+              f'def {nm} (m cutoff : Rat) : Rat := m {"+" if isinstance(aug.op, ast.Add) else "-"} {_lx(aug.value, {"cutoff": "cutoff"}, "rat")}']
+    L.append('')
+
+    # --- bins: arange arguments, digitize offset
+    stops = set()
+    for k, ax in enumerate('xyz'):
+        a = _one([n for n in nodes if isinstance(n, ast.Assign) and U(n.targets[0]) == f'{ax}bins'], f'`{ax}bins = …`')
+        c = a.value
+        if not (isinstance(c, ast.Call) and U(c.func) == 'np.arange' and len(c.args) == 3 and not c.keywords
+                and U(c.args[0]) == f'supermin[{k}]' and U(c.args[2]) == 'binsize'):
+            raise TranslationError(f'nlist.pyx: `{U(a)}` is not np.arange(supermin[{k}], <stop>, binsize)')
+        stops.add(_lx(c.args[1], {f'supermax[{k}]': 'hi', 'binsize': 'c'}, 'rat'))
+        n_ = _one([n for n in nodes if isinstance(n, ast.Assign) and U(n.targets[0]) == f'num{ax}bins'], f'`num{ax}bins = …`')
+        if U(n_.value) != f'len({ax}bins)':
+            raise TranslationError(f'nlist.pyx: `{U(n_)}` is not len({ax}bins)')
+    if len(stops) != 1:
+        raise TranslationError(f'nlist.pyx: the three np.arange calls have different stop expressions: {sorted(stops)}')
+    offs = set()
+    idx = [n for n in nodes if isinstance(n, ast.Assign) and U(n.targets[0]) in ('xindex', 'yindex', 'zindex')]
+    if len(idx) != 6:
+        raise TranslationError(f'nlist.pyx: {len(idx)} assignments to xindex / yindex / zindex (expected 3 real + 3 ghost)')
+    for a in idx:
+        ax = U(a.targets[0])[0]
+        k = 'xyz'.index(ax)
+        v = a.value
+        ok = (isinstance(v, ast.BinOp) and isinstance(v.op, ast.Sub) and isinstance(v.left, ast.Call)
+              and U(v.left.func) == 'np.digitize' and len(v.left.args) == 2 and not v.left.keywords
+              and U(v.left.args[0]) in (f'pos[:, {k}]', f'ghostpos[:, {k}]') and U(v.left.args[1]) == f'{ax}bins'
+              and isinstance(v.right, ast.Constant) and isinstance(v.right.value, int))
+        if not ok:
+            raise TranslationError(f'nlist.pyx: `{U(a)}` is not np.digitize(<pos>[:, {k}], {ax}bins) - <int>')
+        offs.add(v.right.value)
+    if len(offs) != 1:
+        raise TranslationError(f'nlist.pyx: different offsets after np.digitize: {sorted(offs)}')
+    L += ['/-! ### bins -/', '/-- second argument of `np.arange(supermin[k], …, binsize)` (`hi` = `supermax[k]`, `c` = `binsize`) -/',
+          f'def arangeStop (hi c : Rat) : Rat := {stops.pop()}',
+          '/-- `np.digitize(…, bins) - k` (all six calls) -/', f'def digitizeOffset : Int := {offs.pop()}', '']
+
+    # --- ghost images: shift ranges per periodic flag, loop nest, skip test, image coordinate, superbox test
+    rng_of = {}
+    for flag, (lo, hi) in (('pbc_a', ('xl', 'xh')), ('pbc_b', ('yl', 'yh')), ('pbc_c', ('zl', 'zh'))):
+        iff = _one([n for n in fn.body if isinstance(n, ast.If) and U(n.test) == flag], f'`if {flag}:`')
+        if len(iff.body) != 1 or len(iff.orelse) != 1:
+            raise TranslationError(f'nlist.pyx: `if {flag}:` has more than one statement per branch')
+        pair = []
+        for st in (iff.body[0], iff.orelse[0]):
+            if not (isinstance(st, ast.Assign) and U(st.targets[0]) == f'({lo}, {hi})'):
+                raise TranslationError(f'nlist.pyx: `if {flag}:` does not set {lo}, {hi}: {U(st)!r}')
+            v = ast.literal_eval(st.value)
+            if not (isinstance(v, tuple) and len(v) == 2 and all(isinstance(t, int) for t in v)):
+                raise TranslationError(f'nlist.pyx: shift range {U(st.value)!r} is not two integer literals')
+            pair.append(v)
+        rng_of[(lo, hi)] = pair
+    if len({str(v) for v in rng_of.values()}) != 1:
+        raise TranslationError(f'nlist.pyx: the three periodic flags give different shift ranges: {rng_of}')
+    (tlo, thi), (flo, fhi) = next(iter(rng_of.values()))
+    L += ['/-! ### ghost images -/', f'/-- `if pbc: lo, hi = {tlo}, {thi}  else: lo, hi = {flo}, {fhi}` (the same for the three flags) -/',
+          f'def shiftRange (p : Bool) : Int × Int := if p then (({tlo}), ({thi})) else (({flo}), ({fhi}))']
+    gp = _one([n for n in nodes if isinstance(n, ast.Assign) and U(n.targets[0]) == 'newposv[i, j]'], '`newposv[i, j] = …`')
+    loops = _loops_around(gp, parent)
+    if len(loops) != 5 or [U(l.target) for l in loops[3:]] != ['i', 'j'] or U(loops[4].iter) != 'range(3)' \
+            or U(loops[3].iter) != 'range(posv.shape[0])' or sorted(U(l.target) for l in loops[:3]) != ['x', 'y', 'z']:
+        raise TranslationError('nlist.pyx: the loops around `newposv[i, j] = …` are not three shift loops, the atom loop and `for j in range(3)`')
+    flag_of = {'(xl, xh)': 'pa', '(yl, yh)': 'pb', '(zl, zh)': 'pc'}
+    want_var = {'(xl, xh)': 'x', '(yl, yh)': 'y', '(zl, zh)': 'z'}
+    expr = ''
+    doc = []
+    for d, l in enumerate(loops[:3]):
+        if not (isinstance(l.iter, ast.Call) and U(l.iter.func) == 'range' and len(l.iter.args) == 2):
+            raise TranslationError(f'nlist.pyx: ghost loop bounds: {U(l.iter)!r}')
+        key = f'({U(l.iter.args[0])}, {U(l.iter.args[1])})'
+        if key not in flag_of or want_var[key] != U(l.target):
+            raise TranslationError(f'nlist.pyx: ghost loop `for {U(l.target)} in {U(l.iter)}` does not run over its own shift range')
+        p = flag_of[key]
+        expr += f'(rangeI (shiftRange {p}).1 (shiftRange {p}).2).{"map" if d == 2 else "flatMap"} fun ({U(l.target)} : Int) => '
+        doc.append(f'`for {U(l.target)} in {U(l.iter)}`')
+    # the branch that does the work
+    iff = parent[loops[3]]
+    if not (isinstance(iff, ast.If) and parent[iff] is loops[2]):
+        raise TranslationError('nlist.pyx: the atom loop of the ghost construction is not inside one `if` under the three shift loops')
+    env = {'x': 'x', 'y': 'y', 'z': 'z'}
+    if loops[3] in iff.orelse and [type(s) for s in iff.body] == [ast.Pass]:
+        keep = f'!({_lx(iff.test, env, "int")})'
+    elif loops[3] in iff.body and not iff.orelse:
+        keep = _lx(iff.test, env, 'int')
+    else:
+        raise TranslationError('nlist.pyx: branch structure of the ghost construction outside the translated subset')
+    L += [f'/-- `if {_cmt(U(iff.test))}: pass  else: <build the images>` -/',
+          f'def ghostKeep (x y z : Int) : Bool := {keep}',
+          '/-- the shifts for which images are built, in loop order: ' + ', '.join(doc) + ' -/',
+          f'def ghostShifts (pa pb pc : Bool) : List (Int × Int × Int) := ({expr}(x, y, z)).filter fun s => ghostKeep s.1 s.2.1 s.2.2']
+    env = {'x': '(x : Rat)', 'y': '(y : Rat)', 'z': '(z : Rat)', 'vects[0, j]': 'v0', 'vects[1, j]': 'v1', 'vects[2, j]': 'v2',
+           'posv[i, j]': 'p'}
+    L += [f'/-- `newposv[i, j] = {_cmt(U(gp.value))}` -/',
+          f'def ghostCoord (x y z : Int) (v0 v1 v2 p : Rat) : Rat := {_lx(gp.value, env, "rat")}']
+    atom_body = loops[3].body
+    if len(atom_body) != 2 or atom_body[0] is not loops[4] or not isinstance(atom_body[1], ast.If) or atom_body[1].orelse \
+            or [U(s) for s in atom_body[1].body] != ['newindex[k] = i', 'k += 1']:
+        raise TranslationError('nlist.pyx: the atom loop of the ghost construction is not `for j …; if <inside>: newindex[k] = i; k += 1`')
+    env = {}
+    for k in range(3):
+        env[f'newposv[i, {k}]'] = f'q{k}'
+        env[f'supermin[{k}]'] = f'lo{k}'
+        env[f'supermax[{k}]'] = f'hi{k}'
+    L += [f'/-- `if {_cmt(U(atom_body[1].test))}:` keep the image -/',
+          f'def inSuperTest (q0 q1 q2 lo0 lo1 lo2 hi0 hi1 hi2 : Rat) : Bool := {_lx(atom_body[1].test, env, "rat")}', '']
+
+    # --- the stencil of the sweep
+    dc = _one([n for n in nodes if isinstance(n, ast.Assign) and U(n.targets[0]) == 'dc'], '`dc = …`')
+    loops = _loops_around(dc, parent)
+    if len(loops) != 4 or sorted(U(l.target) for l in loops[1:]) != ['dx', 'dy', 'dz'] or parent[dc] is not loops[3]:
+        raise TranslationError('nlist.pyx: `dc = …` is not directly inside three offset loops inside the loop over the occupied bins')
+    if U(dc.value) != 'xyzbins[x + dx, y + dy, z + dz, 0]':
+        raise TranslationError(f'nlist.pyx: `dc = {U(dc.value)}`')
+    rngs = [(U(l.target), _int_range(l.iter, 'stencil loops')) for l in loops[1:]]
+    expr = ''
+    for d, (v, (lo, hi)) in enumerate(rngs):
+        expr += f'(rangeI ({lo}) ({hi})).{"map" if d == 2 else "flatMap"} fun ({v} : Int) => '
+    sb = loops[3].body
+    if not (len(sb) == 5 and sb[2] is dc and isinstance(sb[0], ast.If) and isinstance(sb[1], ast.If)
+            and [U(s) for s in sb[0].body] == ['end = True', 'break'] and not sb[0].orelse
+            and [U(s) for s in sb[1].body] == ['continue'] and not sb[1].orelse and U(sb[4]) == 'c += dc'):
+        raise TranslationError('nlist.pyx: body of the innermost stencil loop is not `if <centre>: end = True; break / if <skip>: continue / dc = … / for j … / c += dc`')
+    env = {'dx': 'dx', 'dy': 'dy', 'dz': 'dz'}
+    L += ['/-! ### stencil of the sweep -/',
+          '/-- all offsets `(dx, dy, dz)` in loop order: ' + ', '.join(f'`for {v} in range({lo}, {hi})`' for v, (lo, hi) in rngs) + ' -/',
+          f'def stencilLoop : List (Int × Int × Int) := {expr}(dx, dy, dz)',
+          f'/-- `if {_cmt(U(sb[0].test))}: end = True; break` -/',
+          f'def centreTest (dx dy dz : Int) : Bool := {_lx(sb[0].test, env, "int")}']
+    env.update({'x': 'x', 'y': 'y', 'z': 'z', 'numxbins': 'numxbins', 'numybins': 'numybins', 'numzbins': 'numzbins'})
+    L += [f'/-- `if {_cmt(U(sb[1].test))}: continue` -/',
+          f'def skipTest (x y z dx dy dz numxbins numybins numzbins : Int) : Bool := {_lx(sb[1].test, env, "int")}']
+    # the pair loops
+    ul = _one([n for n in nodes if isinstance(n, ast.For) and U(n.target) == 'u'], '`for u in …`')
+    if U(ul.iter) != 'range(shortlist.shape[0])' or parent[ul] is not loops[0]:
+        raise TranslationError(f'nlist.pyx: `for u in {U(ul.iter)}`')
+    vls = [n for n in ul.body if isinstance(n, ast.For) and U(n.target) == '(w, v)']
+    if len(vls) != 2 or U(vls[0].iter) != U(vls[1].iter):
+        raise TranslationError('nlist.pyx: the two `for w, v in enumerate(range(…))` loops of the sweep differ / are missing')
+    it = vls[0].iter
+    if not (isinstance(it, ast.Call) and U(it.func) == 'enumerate' and len(it.args) == 1 and isinstance(it.args[0], ast.Call)
+            and U(it.args[0].func) == 'range' and len(it.args[0].args) == 2 and U(it.args[0].args[1]) == 'longlist.shape[0]'):
+        raise TranslationError(f'nlist.pyx: pair loop `for w, v in {U(it)}`')
+    L += [f'/-- `for u in range(shortlist.shape[0]): for w, v in {_cmt(U(it))}`: first `v` -/',
+          f'def vStart (u : Nat) : Nat := {_lx(it.args[0].args[0], {"u": "u"}, "nat")}', '']
+
+    # --- sorted insertion: the two scans
+    scans = [n for n in nodes if isinstance(n, ast.For) and U(n.target) == 'j' and isinstance(n.iter, ast.Call)
+             and U(n.iter.func) == 'range' and len(n.iter.args) == 2 and U(n.iter.args[1]).startswith('neighbors[')]
+    if len(scans) != 2:
+        raise TranslationError(f'nlist.pyx: {len(scans)} scans `for j in range(a, neighbors[…, 0] + …)` (expected 2)')
+    su, sv = scans
+    out = []
+    for s, who, other, pre in ((su, 'uindex', 'vindex', 'u'), (sv, 'vindex', 'uindex', 'v')):
+        cnt = f'neighbors[{who}, 0]'
+        out += [f'/-- `for j in {_cmt(U(s.iter))}` -/',
+                f'def {pre}ScanStart : Nat := {_lx(s.iter.args[0], {}, "nat")}',
+                f'def {pre}ScanStop (count : Nat) : Nat := {_lx(s.iter.args[1], {cnt: "count"}, "nat")}']
+        env = {f'neighbors[{who}, j]': 'e', other: 'w'}
+        if len(s.body) != 1 or not isinstance(s.body[0], ast.If):
+            raise TranslationError(f'nlist.pyx: body of the scan of row {who}')
+        i1 = s.body[0]
+        if pre == 'u':
+            if [U(t) for t in i1.body] != ['new = False', 'break'] or len(i1.orelse) != 1 or not isinstance(i1.orelse[0], ast.If) \
+                    or [U(t) for t in i1.orelse[0].body] != ['uj = j', 'break'] or i1.orelse[0].orelse:
+                raise TranslationError('nlist.pyx: scan of row uindex is not `if <found>: new = False; break  elif <past>: uj = j; break`')
+            out += [f'/-- `if {_cmt(U(i1.test))}: new = False; break` (`e` = the entry, `w` = `vindex`) -/',
+                    f'def uFound (e w : Nat) : Bool := {_lx(i1.test, env, "nat")}',
+                    f'/-- `elif {_cmt(U(i1.orelse[0].test))}: uj = j; break` -/',
+                    f'def uPast (e w : Nat) : Bool := {_lx(i1.orelse[0].test, env, "nat")}']
+        else:
+            if [U(t) for t in i1.body] != ['vj = j', 'break'] or i1.orelse:
+                raise TranslationError('nlist.pyx: scan of row vindex is not `if <past>: vj = j; break`')
+            out += [f'/-- `if {_cmt(U(i1.test))}: vj = j; break` (`e` = the entry, `w` = `uindex`) -/',
+                    f'def vPast (e w : Nat) : Bool := {_lx(i1.test, env, "nat")}']
+        dflt = _one([n for n in nodes if isinstance(n, ast.If) and U(n.test) == f'{pre}j == -1'], f'`if {pre}j == -1:`')
+        if len(dflt.body) != 1 or dflt.orelse or not isinstance(dflt.body[0], ast.Assign) or U(dflt.body[0].targets[0]) != f'{pre}j':
+            raise TranslationError(f'nlist.pyx: `if {pre}j == -1:` does not set {pre}j')
+        out += [f'/-- `if {pre}j == -1: {_cmt(U(dflt.body[0]))}` -/',
+                f'def {pre}jDefault (count : Nat) : Nat := {_lx(dflt.body[0].value, {cnt: "count"}, "nat")}']
+    L += ['/-! ### sorted insertion: the scans of the two rows -/'] + out
+    L += ['', 'end Atomman.C03.Src', '']
+    return '\n'.join(L)
+
 
 def translate():
     from ..translate import TranslationError
@@ -2560,7 +2978,7 @@ def translate():
         '/-- `self.__neighbors = self.__nlist[:, k:]`; `[key]` is `self.__neighbors[key, :self.coord[key]]` -/',
         f'def nbrFrom : Nat := {obj["nbr_from"]}',
         '', 'end Atomman.C03.Gen', '']
-    return {'NlistStorage': '\n'.join(out)}
+    return {'NlistStorage': '\n'.join(out), 'NlistSource': _translate_source()}
 
 
 # ----------------------------------------------------------------------------------------
@@ -2863,9 +3281,22 @@ def _correspond_case(ctx, case, name, tmpdir, roundtrip):
     except Exception as e:  # noqa
         ctx.violate('raises', f'System construction raised {type(e).__name__}: {e}', _payload(case))
         return
-    out = ctx.driver.ask(_line(case, init, delta))
+    # call forms (round 5): every 5th case leaves storage sizes out -- both through the object API (`-`: defaults of
+    # NeighborList.build), both in a direct call of nlist (`~`: its own defaults), or only deltasize; the model takes the
+    # defaults from the source of the run (Generated/NlistSource.lean) and the final storage width is compared
+    k_form = (n + 3 * init + 7 * delta) % 15
+    t_init, t_delta, a_init, a_delta, form = init, delta, init, delta, 0
+    if k_form == 0:
+        t_init, t_delta, a_init, a_delta = '-', '-', None, None
+    elif k_form == 5:
+        t_init, t_delta, a_init, a_delta, form = '~', '~', None, None, 3
+    elif k_form == 10:
+        t_delta, a_delta = '-', None
+    if k_form in (0, 5, 10):
+        ctx.extra['calls_with_sizes_left_out'] = ctx.extra.get('calls_with_sizes_left_out', 0) + 1
+    out = ctx.driver.ask(_line(case, t_init, t_delta))
     try:
-        nl = _build(case, system, init, delta, via)
+        nl = _build(case, system, a_init, a_delta, via, form)
         rows = _rows(nl)
         coord = [int(c) for c in nl.coord]
         cap = int(nl.nlist.shape[1]) - 1
@@ -2906,9 +3337,10 @@ def _correspond_case(ctx, case, name, tmpdir, roundtrip):
                      f'{[coord[i] for i in diff]}, model {[mrows[i] for i in diff]}', _payload(case))
         return
     if cap != mcap:
-        ctx.disagree('capacity', f'final storage width {cap} != model {mcap} (initialsize {init}, deltasize {delta}, '
+        ctx.disagree('capacity', f'final storage width {cap} != model {mcap} (initialsize {t_init}, deltasize {t_delta} '
+                     f'[- / ~: left out in a call through NeighborList / of nlist], '
                      f'max coord {max(coord or [0])})', _payload(case))
-    if roundtrip:
+    if roundtrip and form == 0:
         _roundtrip(ctx, case, nl, rows, tmpdir, name, n + init)
 
 
@@ -3352,7 +3784,10 @@ def run_sequence(ctx, rng, it, mode, tmpdir, script=None, trace=None):
                             payload)
                 return
         elif mode == 'corr':
-            init, delta = q['init'] or 20, q['delta'] or 10
+            # a size the call leaves out is left out for the model too: `-` through NeighborList / System.neighborlist
+            # (default of build), `~` in a direct call of nlist (its own default) -- both read from the source of the run
+            left = '~' if via == 2 else '-'
+            init, delta = (left if q['init'] is None else q['init']), (left if q['delta'] is None else q['delta'])
             seq_ops.extend(_diff_ops(last_state, case))
             seq_ops.append(f'Q {cm.fr(case["cutoff"])} {init} {delta}')
             last_state = case
